@@ -278,7 +278,73 @@ def r4_mode_is_live(ctx, chk, rule="C10.4"):
         chk.ok(rule, init.where(), "the pruning mode lives in one field (self.%s); %d field(s) derived from it at construction, none read by a decision" % (plain[0], len(derived)))
 
 
+def r5_batch_reads_own_marks(ctx, chk, rule="C10.5"):
+    """run_games writes into the caller's game dictionaries (the pruning mode of the current run).  If it also READS such a key
+    from the caller's dictionary before writing it, the value it sees is the one an earlier call left there: a second run over
+    the same description does something else than the first."""
+    q = "conditionalrewards.py::run_games"
+    if not ctx.prog.has_func(q):
+        chk.undecided(rule, q, "batch runner missing")
+        return
+    f = ctx.func(q)
+    outer = [n for n in walk_no_nested_defs(f.node) if isinstance(n, ast.For) and isinstance(n.iter, ast.Call) and isinstance(n.iter.func, ast.Attribute) and n.iter.func.attr == "items"
+             and isinstance(n.target, ast.Tuple) and len(n.target.elts) == 2 and isinstance(n.target.elts[1], ast.Name)]
+    if len(outer) != 1:
+        chk.undecided(rule, f.where(), "per-game loop `for name, game in games.items()` not found in run_games")
+        return
+    L = outer[0]
+    G = L.target.elts[1].id
+
+    def key_of(node, mod):
+        ok, v = ctx.prog.try_const(node, mod)
+        return v if ok and isinstance(v, str) else None
+    writes, reads = {}, []
+
+    def scan(func, var, site, depth=0):
+        """reads / writes of dict `var` inside func (or inside the loop L when func is run_games); site = position of the entry point in run_games"""
+        root = L if func is f else func.node
+        for n in ast.walk(root):
+            pos = (n.lineno, n.col_offset) if func is f and hasattr(n, "lineno") else site
+            if isinstance(n, ast.Subscript) and isinstance(n.value, ast.Name) and n.value.id == var:
+                k = key_of(n.slice, func.mod)
+                if k is None:
+                    continue
+                if isinstance(n.ctx, ast.Store):
+                    writes.setdefault(k, []).append(pos)
+                elif isinstance(n.ctx, ast.Load):
+                    reads.append((k, pos, func, n))
+            if isinstance(n, ast.Compare) and len(n.ops) == 1 and isinstance(n.ops[0], (ast.In, ast.NotIn)) and isinstance(n.comparators[0], ast.Name) and n.comparators[0].id == var:
+                k = key_of(n.left, func.mod)
+                if k is not None:
+                    reads.append((k, pos, func, n))
+            if isinstance(n, ast.Call) and isinstance(n.func, ast.Attribute) and isinstance(n.func.value, ast.Name) and n.func.value.id == var and n.args:
+                k = key_of(n.args[0], func.mod)
+                if k is not None and n.func.attr in ("get", "pop"):
+                    reads.append((k, pos, func, n))
+                if k is not None and n.func.attr in ("setdefault", "pop", "__setitem__"):
+                    writes.setdefault(k, []).append(pos)
+            if isinstance(n, ast.Call) and depth < 2:
+                for i, a in enumerate(n.args):
+                    if isinstance(a, ast.Name) and a.id == var:
+                        for h in ctx.cg.resolve(n, func):
+                            ps = [p for p in h.params if p != "self"]
+                            if i < len(ps):
+                                scan(h, ps[i], pos, depth + 1)
+    scan(f, G, None)
+    bad = 0
+    for k, pos, func, n in reads:
+        if k in writes and pos is not None and pos < min(writes[k]):
+            bad += 1
+            chk.violation(rule, func.where(n), "`%s` reads `%s[%r]` from the caller's game dictionary, and run_games itself stores that key there later in the same pass "
+                          "(line %d): what is read is the mark left by an earlier run over the same description, so a second run does not repeat the first" % (
+                              norm_stmt(ctx.cfg(func).stmt_of(n)) if func is not f else src(n), G, k, min(writes[k])[0]),
+                          expected="the mode of a run comes from the loop, not from the caller's dictionary", found=src(n), construct="run_games reads own mark %s" % k)
+    if not bad:
+        chk.ok(rule, f.where(L), "run_games stores %s in the caller's game dictionaries and never reads those keys back before storing them" % (sorted(writes) or "nothing"))
+
+
 def run(ctx, chk):
+    r5_batch_reads_own_marks(ctx, chk)
     r4_mode_is_live(ctx, chk)
     dynamic_census(ctx, chk, "C10.0")
     r1(ctx, chk)
